@@ -1,6 +1,9 @@
 package main
 
 import (
+	"os/exec"
+	"context"
+	"bytes"
 	"encoding/json"
 	"fmt"
 	"os"
@@ -147,6 +150,14 @@ func runCheck(P *Program, verif, prop, tier string, seed int, verbose bool, t0 t
 		}
 		fmt.Printf("VIOLATION property=%s replay=%s obligation=%s answer=%s%s\n", prop, paths[i], o.Name, o.Answer, suffix)
 	}
+	// bounded stand-ins (labelled bounded, reported separately, never counted among the proof obligations)
+	bounded := P.runBounded(verif, prop, tier, replayDir)
+	for _, b := range bounded {
+		if b.Failed {
+			violations++
+			fmt.Printf("VIOLATION property=%s replay=%s obligation=%s answer=bounded-check-failed\n", prop, b.Replay, b.Name)
+		}
+	}
 	var kh []string
 	for k := range knownHits {
 		kh = append(kh, k)
@@ -237,6 +248,7 @@ func runCheck(P *Program, verif, prop, tier string, seed int, verbose bool, t0 t
 			"undecided":                undecided,
 			"unreachable_returns":      deadReturns,
 			"unreachable_returns_new":  newDead,
+			"bounded_checks":           bounded,
 			"engine_errors":            engineErrs,
 			"samples":                  samples,
 		}}
@@ -464,3 +476,95 @@ func (P *Program) runWitness(kf *KnownFinding) (bool, string) {
 
 var verifDir = "/verif"
 var writeBaseline = false
+
+// ---- bounded stand-ins ------------------------------------------------------------------------------
+
+// BoundedSpec: an exhaustive check up to a stated bound, for a statement the contracts cannot carry. The test file is
+// injected into a package of /repo with `go test -overlay` and must print "GOVC-BOUNDED <summary>" and one
+// "GOVC-FAIL <input>" line per failing input.
+type BoundedSpec struct {
+	Property string            `json:"property"`
+	Name     string            `json:"name"`
+	Pkg      string            `json:"pkg"`
+	File     string            `json:"file"`
+	Test     string            `json:"test"`
+	Bound    map[string]string `json:"bound"` // per tier: human readable bound
+	Env      map[string]string `json:"env"`   // per tier: "K=V K=V"
+}
+
+type BoundedResult struct {
+	Name    string   `json:"name"`
+	Label   string   `json:"label"`
+	Bound   string   `json:"bound"`
+	Summary string   `json:"summary"`
+	Failed  bool     `json:"failed"`
+	Fails   []string `json:"failing_inputs,omitempty"`
+	Replay  string   `json:"replay,omitempty"`
+	Secs    float64  `json:"secs"`
+}
+
+func (P *Program) runBounded(verif, prop, tier, replayDir string) []BoundedResult {
+	var specs []BoundedSpec
+	b, err := os.ReadFile(filepath.Join(verif, "bounded", "bounded.json"))
+	if err != nil || json.Unmarshal(b, &specs) != nil {
+		return nil
+	}
+	if tier == "" {
+		tier = "quick"
+	}
+	var out []BoundedResult
+	for _, sp := range specs {
+		if sp.Property != prop {
+			continue
+		}
+		t0 := time.Now()
+		src, err := os.ReadFile(filepath.Join(verif, "bounded", sp.File))
+		res := BoundedResult{Name: sp.Name, Label: "bounded", Bound: sp.Bound[tier]}
+		if err != nil {
+			res.Failed, res.Summary = true, "test file unreadable: "+err.Error()
+			out = append(out, res)
+			continue
+		}
+		dir, _ := os.MkdirTemp("", "govc-bounded-")
+		tf := filepath.Join(dir, "zz_govc_bounded_test.go")
+		os.WriteFile(tf, src, 0o644)
+		ov := map[string]map[string]string{"Replace": {filepath.Join(P.repo, sp.Pkg, "zz_govc_bounded_test.go"): tf}}
+		ob, _ := json.Marshal(ov)
+		of := filepath.Join(dir, "ov.json")
+		os.WriteFile(of, ob, 0o644)
+		ctx, cancel := context.WithTimeout(context.Background(), 900*time.Second)
+		cmd := exec.CommandContext(ctx, "go", "test", "-overlay", of, "-vet=off", "-timeout", "800s", "-run", "^"+sp.Test+"$", "-count=1", "./"+sp.Pkg+"/")
+		cmd.Dir = P.repo
+		cmd.Env = append(goEnv(), strings.Fields(sp.Env[tier])...)
+		var buf bytes.Buffer
+		cmd.Stdout, cmd.Stderr = &buf, &buf
+		runErr := cmd.Run()
+		cancel()
+		os.RemoveAll(dir)
+		text := buf.String()
+		for _, l := range strings.Split(text, "\n") {
+			if i := strings.Index(l, "GOVC-FAIL "); i >= 0 {
+				res.Fails = append(res.Fails, strings.TrimSpace(l[i+len("GOVC-FAIL "):]))
+			}
+			if i := strings.Index(l, "GOVC-BOUNDED "); i >= 0 {
+				res.Summary = strings.TrimSpace(l[i+len("GOVC-BOUNDED "):])
+			}
+		}
+		res.Secs = round3(time.Since(t0).Seconds())
+		if runErr != nil || len(res.Fails) > 0 || res.Summary == "" {
+			res.Failed = true
+			if res.Summary == "" {
+				res.Summary = "the bounded check did not run to completion: " + firstLines(text, 6)
+			}
+			os.MkdirAll(replayDir, 0o755)
+			res.Replay = filepath.Join(replayDir, sanitize(sp.Name)+".json")
+			rf := map[string]interface{}{"property": prop, "obligation": sp.Name, "kind": "bounded", "bound": res.Bound, "summary": res.Summary,
+				"failing_inputs": res.Fails, "how_to_replay": "cd /repo && go test -overlay <ov.json mapping " + sp.Pkg + "/zz_govc_bounded_test.go to /verif/bounded/" + sp.File + "> -vet=off -run " + sp.Test + " ./" + sp.Pkg + "/ (env " + sp.Env[tier] + ")", "output": firstLines(text, 40)}
+			jb, _ := json.MarshalIndent(rf, "", " ")
+			os.WriteFile(res.Replay, append(jb, '\n'), 0o644)
+		}
+		out = append(out, res)
+		fmt.Printf("BOUNDED property=%s %s bound=%q %s\n", prop, sp.Name, res.Bound, res.Summary)
+	}
+	return out
+}
